@@ -148,16 +148,13 @@ fn apply(inst: &Inst, m: &Mutation) -> Option<(Vec<u8>, usize, bool)> {
         }
         Mutation::RandomEdit(edits) => {
             let mut v = w.clone();
-            let mut first = usize::MAX;
             for (p, x) in edits {
-                if *p < v.len() && *x != 0 {
+                if *p < v.len() {
                     v[*p] ^= x;
-                    first = first.min(*p);
                 }
             }
-            if first == usize::MAX {
-                return None;
-            }
+            // the point of tampering is where the result really differs (two edits of one byte may cancel out)
+            let first = (0..v.len()).find(|i| v[*i] != w[*i])?;
             (v, first, false)
         }
         Mutation::Reflect(keep) => {
@@ -306,7 +303,7 @@ fn has_unauthenticated_padding(spec: &Spec) -> bool {
 fn judge(rep: &mut Report, spec: &Spec, seed: u64, index: u64, transport: &str, m: &Mutation, first_diff: usize, inst_frames: &[usize], inst_plain: &[usize], expected_stream: &[u8], expected_dgrams: &[Vec<u8>], rel: Released) {
     let proto = spec.cfg.proto.name();
     let base = format!("C05|{}|{:?}|{}|wire-from-{:?}|{}", transport, spec.role, proto, spec.source, m.family());
-    let witness = |extra: serde_json::Value| json!({"seed": seed, "index": index, "spec": spec.describe(), "mutation": format!("{:?}", m).chars().take(200).collect::<String>(), "first_tampered_offset": first_diff, "frame_ends": inst_frames, "detail": extra});
+    let witness = |extra: serde_json::Value| json!({"seed": seed, "index": index, "spec": spec.describe(), "mutation": format!("{:?}", m).chars().take(200).collect::<String>(), "first_tampered_offset": first_diff, "frame_ends": &inst_frames[..inst_frames.len().min(24)], "frames": inst_frames.len(), "detail": extra});
     rep.mon("mutated_streams_delivered", 1);
     if let Some(p) = rel.panic {
         rep.violation(format!("{}|{}", base, p.signature()), format!("decoder panicked on a tampered stream: {}", p.message), witness(json!({"location": p.location})));
